@@ -152,6 +152,66 @@ def check(repo, col, tier):
     # one entry per cell -- a group extended by several add_to_group calls must stay sorted and free of duplicates
     col.rule("R-C20-groups", "groups hold sorted, unique row labels", 1)
     c11.group_normal_form(repo, col, "R-C20-groups")
+    col.rule("R-C20-locs", "the recorded pre / post location is the centre of the recorded compartment within its own branch", 3)
+    recorded_locs(repo, col, "R-C20-locs")
+    # the builders create sub-views of the population views they are given (cell by cell): a sub-view's edges are those of its parent
+    col.rule("R-C20-views", "a sub-view keeps only edges of its parent view, with both ends in view", 3)
+    c11._edges(repo, col, "R-C20-views")
+
+
+def recorded_locs(repo, col, R):
+    """`pre_locs` / `post_locs` of a new synapse row say where on its branch the recorded compartment lies:
+    loc = (k + 1/2) / n with k = global_comp_index - (first compartment of the branch), n = ncomp of THAT branch.  `k = index % n`
+    agrees only when all branches before it have a multiple of n compartments."""
+    from sa.termalg import term_rat
+    from sa.algebra import Rat, Und
+    fi = repo.func("jaxley/utils/cell_utils.py", "loc_of_index")
+    ex = idx.expander(repo, fi)
+    r = ex.merged_return() if len(ex.returns) != 1 else ex.returns[0]
+    if r is None or len(fi.params) != 3:
+        raise AnalysisError("loc_of_index: return value / signature not recognised")
+    g_, b_, n_ = fi.params
+    r = idx.inline(repo, fi, r, value_only=True, keep=("cumsum_leading_zero",))
+    mod = T.find(r, lambda x: x.op == "binop" and x.name in ("%", "//"))
+
+    def leaf(x):
+        if x.op == "param" and x.name == g_:
+            return Rat.atom("g")
+        if x.op == "sub" and x.args[1].op == "param" and x.args[1].name == b_:
+            base = x.args[0]
+            if base.op == "param" and base.name == n_:
+                return Rat.atom("n")
+            if base.op in ("call", "mcall") and base.name == "cumsum_leading_zero" and \
+                    T.find(base, lambda y: y.op == "param" and y.name == n_) is not None:
+                return Rat.atom("first")
+        return None
+    try:
+        form = term_rat(r, leaf)
+        want = (Rat.const(1) / Rat.const(2) + Rat.atom("g") - Rat.atom("first")) / Rat.atom("n")
+        ok = form.eq(want)
+    except Und:
+        form, ok = None, False
+    col.add(R, fi, "loc_of_index: loc = (global index - first compartment of the branch + 1/2) / ncomp of the branch",
+            "DISCHARGED" if ok else ("VIOLATED" if (mod is not None or (form is not None and set(form.n.atoms()) | set(form.d.atoms()) <= {"g", "first", "n"})) else "UNDECIDED"),
+            "(0.5 + index - cumsum_ncomp[branch]) / ncomp_per_branch[branch]" if ok else
+            f"loc_of_index returns `{r.short(100)}`"
+            + (": the position within the branch is taken modulo the branch's own compartment count, which equals `index - first compartment of "
+               "the branch` only if every earlier branch has a multiple of that count; with different counts per branch the recorded "
+               "pre_locs / post_locs name another compartment than pre/post_global_comp_index" if mod is not None else f" = {form}"), node=fi.node)
+    # both ends are converted with their OWN rows
+    ap = repo.method("Network", "_append_multiple_synapses")
+    exa = idx.expander(repo, ap)
+    for which in ("pre", "post"):
+        sts = [s_ for s_ in exa.stores if s_.kind == "sub" and s_.key.op == "const" and s_.key.name == f"{which}_locs"]
+        if not sts:
+            col.bad(R, ap, f"`{which}_locs` is recorded", f"the column `{which}_locs` of the new synapse rows is no longer filled", node=ap.node)
+            continue
+        v = idx.inline(repo, ap, sts[0].value, value_only=True, keep=("loc_of_index",))
+        call = T.find(v, lambda x: x.op == "call" and x.name == "loc_of_index")
+        srcs = {x.name for a_ in (call.args[:2] if call is not None else []) for x in a_.walk() if x.op == "param"}
+        col.check(call is not None and srcs == {f"{which}_nodes"}, R, ap, f"`{which}_locs` is computed from the {which}synaptic rows",
+                  f"loc_of_index({which}_nodes[...], {which}_nodes[...], ncomp_per_branch)",
+                  f"`{which}_locs` is computed from {sorted(srcs) or v.short(60)}", node=sts[0].node)
 
 
 def _append_call(ex: Expander):
@@ -366,7 +426,21 @@ def _sparse(repo, col):
                   node=stack)
     # the append is guarded against the empty draw
     g = ex.stmt_guards.get(id(_stmt_of(fi.node, c)), ())
-    guarded = any("len(" in x.pretty() and x.op == "cmp" for x in g)
+    def says_nonempty(x):
+        """the condition holds only if some row array is non-empty: len(a) > 0, len(a) != 0, len(a) >= 1, not (len(a) == 0), ..."""
+        neg = False
+        while x.op == "not" or (x.op == "unary" and x.name == "Not"):
+            neg, x = not neg, x.args[0]
+        if x.op == "cmp" and len(x.args) == 2 and x.args[0].op in ("call", "mcall") and x.args[0].name == "len" and \
+                x.args[1].op == "const" and isinstance(x.args[1].name, int):
+            k, o = x.args[1].name, x.name
+            pos = (o == ">" and k >= 0) or (o == ">=" and k >= 1) or (o == "!=" and k == 0)
+            negd = (o == "==" and k == 0) or (o == "<" and k <= 1) or (o == "<=" and k <= 0)
+            return (pos and not neg) or (negd and neg)
+        if x.op in ("call", "mcall") and x.name == "len" and not neg:
+            return True   # truthiness of the length
+        return False
+    guarded = any(says_nonempty(x) for x in g)
     col.check(guarded, "R-C20-length", fi, "sparse_connect: nothing is appended for an empty draw",
               "`if len(pre_rows) > 0`", "the append is not guarded against an empty draw", node=c)
     # roles
